@@ -93,8 +93,7 @@ Proof. vm_compute. reflexivity. Qed.
 Lemma model_agrees_b : forallb chk_model_agrees all_names = true.
 Proof. vm_compute. reflexivity. Qed.
 
-Lemma sing_plur_b :
-  forallb (fun d => chk_sing_plur d || mem_str (fst (fst d)) known_sing_plur) (t_defs the_tables) = true.
+Lemma sing_plur_b : forallb chk_sing_plur (t_defs the_tables) = true.
 Proof. vm_compute. reflexivity. Qed.
 
 Lemma first_definition_b : forallb chk_first_definition all_names = true.
@@ -106,7 +105,7 @@ Proof. vm_compute. reflexivity. Qed.
 Lemma short_long_b : forallb chk_short_long (t_defs the_tables) = true.
 Proof. vm_compute. reflexivity. Qed.
 
-Lemma family_b : forallb (fun n => chk_family n || mem_str n known_family) table_names = true.
+Lemma family_b : forallb chk_family table_names = true.
 Proof. vm_compute. reflexivity. Qed.
 
 Lemma prefix_rows_b : forallb (chk_row q_fast) gen_prefix_status = true.
@@ -142,12 +141,11 @@ Lemma model_matches_implementation n : In n all_names -> chk_model_agrees n = tr
 Proof. apply (proj1 (forallb_forall _ _) model_agrees_b). Qed.
 
 Lemma singular_plural_same s p d :
-  In (s, p, d) (t_defs the_tables) -> p <> [] -> mem_str s known_sing_plur = false ->
+  In (s, p, d) (t_defs the_tables) -> p <> [] ->
   exists q1 q2, impl_quantity s = Some q1 /\ impl_quantity p = Some q2 /\ quantity_eqb q1 q2 = true.
 Proof.
-  intros Hin Hp Hk.
-  pose proof (proj1 (forallb_forall _ _) sing_plur_b _ Hin) as Hc. cbn [fst] in Hc.
-  rewrite Hk, orb_false_r in Hc. unfold chk_sing_plur in Hc.
+  intros Hin Hp.
+  pose proof (proj1 (forallb_forall _ _) sing_plur_b _ Hin) as Hc. unfold chk_sing_plur in Hc.
   destruct p as [|c p']; [contradiction|].
   unfold opt_quantity_eqb in Hc.
   destruct (impl_quantity s) as [q1|]; [|discriminate].
@@ -165,12 +163,10 @@ Proof. apply (proj1 (forallb_forall _ _) short_long_b). Qed.
 
 Lemma sq_cb_family n x k qx :
   In n table_names -> In (x, k) (family_of n) -> stem_quantity x = Some qx ->
-  mem_str n known_family = false ->
   exists want, quantity_pow qx k = Some want /\ opt_quantity_eqb (impl_quantity n) (Some want) = true.
 Proof.
-  intros Hn Hx Hq Hk.
-  pose proof (proj1 (forallb_forall _ _) family_b _ Hn) as Hc. cbn beta in Hc.
-  rewrite Hk, orb_false_r in Hc. unfold chk_family in Hc.
+  intros Hn Hx Hq.
+  pose proof (proj1 (forallb_forall _ _) family_b _ Hn) as Hc. unfold chk_family in Hc.
   pose proof (proj1 (forallb_forall _ _) Hc _ Hx) as H1.
   unfold chk_family_one in H1. cbn [fst snd] in H1. rewrite Hq in H1.
   destruct (quantity_pow qx k) as [want|]; [|discriminate]. eauto.
